@@ -672,6 +672,13 @@ fn c08_invariant_with(keys: &[Vec<u8>]) -> impl Fn(&Ctx, &mut World, &ExpState) 
             if acc_desc != want_desc {
                 ctx.violation("c08:accessor-scan-differs-from-model:descending", json!({"contract": c, "history": es.s.name, "got": acc_desc.iter().map(|(k, _)| show(k)).collect::<Vec<_>>(), "want": want_desc.iter().map(|(k, _)| show(k)).collect::<Vec<_>>()}));
             }
+            // keys-only / values-only iteration of the accessor
+            let acc_keys: Vec<Vec<u8>> = world.app.contract_storage(&ad).range_keys(None, None, cosmwasm_std::Order::Ascending).collect();
+            let acc_vals: Vec<Vec<u8>> = world.app.contract_storage(&ad).range_values(None, None, cosmwasm_std::Order::Descending).collect();
+            n += 1;
+            if acc_keys != model.keys().cloned().collect::<Vec<_>>() || acc_vals != want_desc.iter().map(|(_, v)| v.clone()).collect::<Vec<_>>() {
+                ctx.violation("c08:accessor-scan-differs-from-model:keys-or-values-only", json!({"contract": c, "history": es.s.name, "keys": acc_keys.iter().map(|k| show(k)).collect::<Vec<_>>(), "values_descending": acc_vals.iter().map(|k| show(k)).collect::<Vec<_>>()}));
+            }
             let mut probe: Vec<Vec<u8>> = keys.to_vec();
             probe.extend(model.keys().cloned());
             for k in &probe {
